@@ -624,6 +624,29 @@ fn check_meta(ext: &str, what: &str, m: &Meta, ctx: &mut Ctx) {
             }
         }
     }
+    // a loaded file whose font is changed afterwards: the record written next names the font the document has now
+    if m.font.is_some() && matches!(ext, "ans" | "asc" | "bin") {
+        for other in [0usize, 3] {
+            if Some(other) == m.font {
+                continue;
+            }
+            let mut edited = got.flat_clone(true);
+            if let Some(s) = got.get_sauce() {
+                edited.set_sauce(Some(s.clone()), false);
+            }
+            edited.set_font(0, BitFont::from_sauce_name(SAUCE_FONT_NAMES[other]).unwrap());
+            if let Ok(b3) = save(&edited, ext, true) {
+                ctx.count("transitions", 2);
+                if let Ok(third) = load(ext, &b3) {
+                    let name = third.get_sauce().as_ref().and_then(|s| s.font_opt.clone());
+                    if name.as_deref() != Some(SAUCE_FONT_NAMES[other]) {
+                        ctx.violation(format!("diff:sauce:{ext}:font-name-after-font-change"), json!({"format": ext, "varied": what, "loaded_with": SAUCE_FONT_NAMES[m.font.unwrap()], "font_set_to": SAUCE_FONT_NAMES[other], "record_names": name}));
+                        return;
+                    }
+                }
+            }
+        }
+    }
     // the picture: equal to the same document saved without SAUCE, when the record only restates the loader defaults
     // (the defaults are read off the content loaded alone: e.g. 160 columns for .bin, ice colours for .idf)
     if m.font.is_none() && ext != "icy" {
